@@ -593,6 +593,23 @@ def run_front(prog, rep):
         if not okd and not any('neighbouring' in x for x in probs):
             probs.append('duplicate column names are not rejected before the backend call (accepted idioms: set insert .second; sort + adjacent_find)')
     rule.check(not probs, 'Block::createDataFrame|column-checks', rep.where(cf), cf.label(), 'unsupported type and duplicate name both throw before backend()->createDataFrame', '; '.join(probs))
+    # what libhdf5 itself refuses only after the frame group exists: an empty compound (no columns) and a Nothing column
+    if bc:
+        facts = sem.facts_at(cf, bc[0].id)
+        cols = cf.params[2]['name']
+        nonempty = any((isinstance(t, tuple) and t[0] == 'm' and t[1] == 'empty' and pol is False and cols in repr(t)) or
+                       (isinstance(t, tuple) and t[0] == 'b' and 'size' in repr(t) and cols in repr(t) and ((t[1] == '==' and pol is False) or (t[1] in ('>', '!=') and pol is True)) and ('k', 0) in t) for t, pol in facts)
+        rule.check(nonempty, 'Block::createDataFrame|non-empty', rep.where(bc[0]), cf.label(), 'an empty column list is refused before the backend call',
+                   'the backend is reached with an empty column list: the compound type cannot be created, the call throws and the frame group stays behind')
+        nothing = False
+        for lp in loops:
+            if not max(x.id for x in lp.walk()) < bc[0].id:
+                continue
+            for i in lp.walk():
+                if i.k == 'if' and i.c[3] is not None and any(x.k == 'throw' for x in i.c[3].walk()) and "'nix::DataType::Nothing'" in repr(term(unwrap(i.c[2]))):
+                    nothing = True
+        rule.check(nothing, 'Block::createDataFrame|no-nothing-column', rep.where(cf), cf.label(), 'a column of type Nothing is refused before the backend call',
+                   'a column of type Nothing passes Variant::supports_type and reaches the backend, which has no file type for it and throws after the frame group exists')
     nw = nr = 0
     for f in sorted(prog.fns('nix::DataFrame::writeColumn'), key=lambda f: f.sig):
         if f.body is None or 'string' not in f.params[0]['type']:
